@@ -31,7 +31,7 @@ func (c08) Rule() string {
 func (c08) Components() map[string]string {
 	return map[string]string{
 		"OCIDocument.GetApplicableTrustPolicy, BlobDocument.GetApplicableTrustPolicy / GetGlobalTrustPolicy, clone": "real",
-		"verifier.Verify (statement applied, ErrorNoApplicableTrustPolicy)":                                          "real",
+		"verifier.Verify (statement applied, ErrorNoApplicableTrustPolicy)":                                         "real",
 		"reference model": "deep-frozen copy of the documents + the specification's selection function",
 		"simulator":       "contributes histories on one long-lived shared document (aliasing between handed-out statements and the document); selection itself is a pure function",
 	}
